@@ -136,9 +136,14 @@ func runSolver(sp solverSpec, file string, timeoutS int) SolverResult {
 	_ = cmd.Run()
 	secs := time.Since(t0).Seconds()
 	o := out.String()
-	first := strings.TrimSpace(o)
-	if k := strings.Index(first, "\n"); k >= 0 {
-		first = first[:k]
+	first := ""
+	for _, ln := range strings.Split(o, "\n") {
+		ln = strings.TrimSpace(ln)
+		if ln == "" || strings.HasPrefix(ln, "WARNING") {
+			continue
+		}
+		first = ln
+		break
 	}
 	st := "error"
 	switch {
